@@ -196,7 +196,9 @@ func c02Derive(c *Ctx) {
 	b := ana.NewBuilder(c.P, fn)
 	key := "load(faddr<Key>(p0))"
 	chain := "load(faddr<ChainCode>(p0))"
-	idx := "call<*>(p1)" // BE32 helper
+	// BE32(index): through the serialisation helper, or the four big-endian bytes written in place
+	idx := "alt(call<*>(p1), slice(obj(alloc<[4]byte>, call<(encoding/binary.bigEndian).PutUint32>(load(global<encoding/binary.BigEndian>), slice(self, 0, alt(4, none)), p1)), 0, alt(4, none)), obj(makeslice<[]byte>(4, 4), call<(encoding/binary.bigEndian).PutUint32>(load(global<encoding/binary.BigEndian>), self, p1)))"
+	be32Inline := false
 	// the keyed hash object after writing the data parts in order, and its digest; the private HMAC helper is looked
 	// through by the matcher (parameters bound to the arguments, the loop over the variadic parts unrolled), so it may
 	// return the hash object or the finished digest and take its arguments in any order
@@ -288,6 +290,11 @@ func c02Derive(c *Ctx) {
 			retryI["$I"] = bd["$I"]
 		}
 	}
+	for _, ci := range ana.CallsTo(fn, "(encoding/binary.bigEndian).PutUint32") {
+		if be32Fn == nil && b.CallTermAt(ci).Arg(2).IsParam(1) {
+			be32Inline = true
+		}
+	}
 	hardCall, normCall, retryCall := site["hardened"], site["normal"], site["retry"]
 	r.Floor("C02.floor.hmac-sites", len(hmacSites), 3, "HMAC call sites in DeriveChild")
 	r.Check(hardCall != nil, "C02.ckd-data.hardened", c.P.Pos(fn.Pos()), "hardened input = [0x00] ‖ e.Key.Bytes() ‖ BE32(index), keyed with e.ChainCode")
@@ -310,6 +317,8 @@ func c02Derive(c *Ctx) {
 				"obj(makeslice<[]byte>(4, 4), store(iaddr(self, 0), conv<byte>(bin<>>>(p0, 24))), store(iaddr(self, 1), conv<byte>(bin<>>>(p0, 16))), store(iaddr(self, 2), conv<byte>(bin<>>>(p0, 8))), store(iaddr(self, 3), conv<byte>(p0)))")
 			r.Check(ok, "C02.ckd-data.ser32", c.ipos(e.Instr), "ser32(i) = 4 bytes, big endian: %s", short(t.String(), 200))
 		}
+	} else if be32Inline {
+		r.OK("C02.ckd-data.ser32", c.P.Pos(fn.Pos()), "ser32(i) = 4 bytes, big endian, written in place by binary.BigEndian.PutUint32")
 	} else {
 		r.Undec("C02.ckd-data.ser32", c.P.Pos(fn.Pos()), "index serialisation helper not found")
 	}
